@@ -7,6 +7,8 @@ import (
 	"sync"
 	"time"
 
+	"github.com/datastax/go-cassandra-native-protocol/frame"
+	"github.com/datastax/go-cassandra-native-protocol/message"
 	"verifharness/internal/e2e"
 	"verifharness/internal/fakecass"
 	"verifharness/internal/rng"
@@ -15,9 +17,11 @@ import (
 // heal: the real proxy in front of one backend node; the pooled connection (K:pool) or the control connection
 // (K:ctl) is lost again and again, and the backend turns away a number of the reconnection attempts that follow
 // before it lets one through. What the backend sees - when each attempt arrives - is the only observation.
-// op:   K:<pool|ctl> B:<base delay ms> M:<max delay ms> R:<k1>,<k2>,...   (round i: drop the connection, turn away k_i attempts)
+// op:   K:<pool|ctl> B:<base delay ms> M:<max delay ms> R:<k1>,<k2>,...   (round i: drop the connection, turn away k_i attempts;
+//       a suffix e on k_i: the attempts are turned away with an ERROR in answer to STARTUP instead of a closed socket)
 // real: gaps=<ms>,<ms>,..;<ms>,..  one group per round: drop -> first attempt, then attempt -> next attempt
 //       (the last attempt of a group is the one let through)  [stuck:<round>] when no attempt arrived in time
+//       out=<reported outage ms>/<ms since the drop>;..  per round, read when the last attempt that is turned away arrives (- if none)
 
 func init() { streams["heal"] = stream{gen: genHeal, run: runHeal} }
 
@@ -29,6 +33,7 @@ func runHeal(op string) (out string) {
 	}()
 	kind, base, max := "pool", 1, 3000
 	var rounds []int
+	var byError []bool
 	for _, t := range strings.Fields(op) {
 		switch {
 		case strings.HasPrefix(t, "K:"):
@@ -39,8 +44,9 @@ func runHeal(op string) (out string) {
 			max, _ = strconv.Atoi(t[2:])
 		case strings.HasPrefix(t, "R:"):
 			for _, x := range strings.Split(t[2:], ",") {
-				k, _ := strconv.Atoi(x)
+				k, _ := strconv.Atoi(strings.TrimSuffix(x, "e"))
 				rounds = append(rounds, k)
+				byError = append(byError, strings.HasSuffix(x, "e"))
 			}
 		}
 	}
@@ -78,6 +84,18 @@ func runHeal(op string) (out string) {
 	}
 	var mu sync.Mutex
 	refuse := 0
+	withError := false
+	refusing := map[*fakecass.Conn]bool{}
+	env.Cluster.SetStartupHandler(func(c *fakecass.Conn, h *frame.Header) (fakecass.Response, bool) {
+		mu.Lock()
+		r := refusing[c]
+		mu.Unlock()
+		if !r {
+			return fakecass.Response{}, false
+		}
+		go func() { time.Sleep(20 * time.Millisecond); c.Close() }()
+		return fakecass.Response{Kind: fakecass.RespMsg, Msg: &message.ServerError{ErrorMessage: "node is starting"}}, true
+	})
 	var arrivals []time.Time
 	arrived := make(chan struct{}, 1024)
 	env.Cluster.SetOnConnect(func(c *fakecass.Conn) {
@@ -86,23 +104,30 @@ func runHeal(op string) (out string) {
 		turnAway := refuse > 0
 		if turnAway {
 			refuse--
+			if withError {
+				refusing[c] = true
+			}
 		}
+		byErr := withError
 		mu.Unlock()
-		if turnAway {
+		if turnAway && !byErr {
 			c.Close()
 		}
 		arrived <- struct{}{}
 	})
-	var groups []string
+	var groups, outs []string
 	for ri, k := range rounds {
 		mu.Lock()
 		refuse = k
+		withError = byError[ri]
 		arrivals = nil
 		mu.Unlock()
 		for len(arrived) > 0 {
 			<-arrived
 		}
 		last := time.Now()
+		dropped := last
+		out := "-"
 		node.DropConns(func(c interface{ Registered() bool }) bool { return c.Registered() == (kind == "ctl") })
 		var gaps []string
 		for a := 0; a <= k; a++ {
@@ -117,14 +142,21 @@ func runHeal(op string) (out string) {
 			mu.Unlock()
 			gaps = append(gaps, fmt.Sprint(at.Sub(last).Milliseconds()))
 			last = at
+			if a == k-1 { // the last attempt that is turned away has just arrived
+				out = fmt.Sprintf("%d/%d", env.Proxy.OutageDuration().Milliseconds(), time.Since(dropped).Milliseconds())
+			}
 		}
+		if k == 0 && kind == "pool" {
+			out = fmt.Sprintf("%d/%d", env.Proxy.OutageDuration().Milliseconds(), time.Since(dropped).Milliseconds())
+		}
+		outs = append(outs, out)
 		groups = append(groups, strings.Join(gaps, ","))
 		if !waitReady(5 * time.Second) {
 			return "gaps=" + strings.Join(groups, ";") + fmt.Sprintf(" stuck:%d", ri)
 		}
 		time.Sleep(30 * time.Millisecond)
 	}
-	return "gaps=" + strings.Join(groups, ";")
+	return "gaps=" + strings.Join(groups, ";") + " out=" + strings.Join(outs, ";")
 }
 
 func genHeal(e *emitter, r *rng.R, n int, tier string) {
@@ -133,6 +165,8 @@ func genHeal(e *emitter, r *rng.R, n int, tier string) {
 		"K:ctl B:1 M:3000 R:10,0,1",  // the control loop steps through every delay: ten failures reach the 11th
 		"K:pool B:1 M:400 R:4,0",     // the cap
 		"K:ctl B:1 M:400 R:9,1",
+		"K:pool B:1 M:1500 R:2e,1,3e", // a node that is up but answers STARTUP with an error for a while
+		"K:ctl B:1 M:1500 R:3e,0,2e",
 		"K:pool B:40 M:3000 R:0,0,0,0,0,0", // losses without failed attempts: always the same first delay
 		"K:ctl B:40 M:3000 R:0,0,0,0,0,0",
 	}
@@ -152,7 +186,11 @@ func genHeal(e *emitter, r *rng.R, n int, tier string) {
 					k = 8 + rr.Intn(3)
 				}
 			}
-			rs = append(rs, fmt.Sprint(k))
+			if rr.Intn(4) == 0 {
+				rs = append(rs, fmt.Sprint(k)+"e")
+			} else {
+				rs = append(rs, fmt.Sprint(k))
+			}
 			budget -= (k + 1) * 150
 			if kind == "ctl" {
 				budget -= 1 << uint(k)
